@@ -7,7 +7,7 @@ if ! git -C /repo diff --quiet; then echo "/repo has uncommitted changes; refusi
 trap 'git -C /repo checkout -- . ; git -C /repo clean -fdq -- tonic tonic-web tonic-build tonic-health tonic-reflection tonic-types tests 2>/dev/null' EXIT
 git -C /repo apply "$P" || { echo "patch does not apply"; exit 8; }
 for id in "$@"; do
-  out=$(VERIF_EVIDENCE_DIR=/tmp ./check "$id" "$TIER" 2>&1); rc=$?
+  out=$(VERIF_EVIDENCE_DIR=${VERIF_EVIDENCE_DIR:-/tmp} ./check "$id" "$TIER" 2>&1); rc=$?
   echo "== $id $TIER rc=$rc"
   echo "$out" | grep -E "VIOLATION|signature:|what:|INCONCLUSIVE|BUILD-FAILED|KNOWN" | head -12
 done
